@@ -199,8 +199,9 @@ impl Sc {
         if len != self.set.len() {
             ctx.fail("len", &format!("after `{op}`: len() = {len}, reference set has {} elements", self.set.len()));
         }
-        if len > 0 && n_free == 0 {
-            // `find` of an absent key would never return: report instead of hanging
+        if !sl.is_empty() && n_free == 0 {
+            // `find` of an absent key / the next `find_or_find_insert_slot` would never return:
+            // report instead of hanging
             ctx.fail("no-free-slot", &format!("after `{op}`: {len} elements and no FREE slot: lookups of absent keys do not terminate"));
             self.dead = true;
             return;
